@@ -197,6 +197,93 @@ def run_subject(scn, *, profile: str, k: int, salt: int = 0, form: str = "pipe")
             "escaped": escaped[0] if escaped else None, "all_escaped": escaped, "dtime": dtime, "marks": marks, "second_at": None}
 
 
+def run_raw(scn, *, profile: str, k: int, salt: int = 0, reenter: Tuple[str, ...] = ("N", "C")):
+    """A NON-CONFORMING hot source written with reactivex.create: it keeps the observer it was given and calls it
+    whenever told to, stopped or not.  The subscriber's terminal callbacks RE-ENTER the source synchronously with the
+    notifications in `reenter` (a subscriber whose on_completed / on_error handler pokes a still-alive upstream).
+    Instants are 200 + index; the expected observation is that of the conforming scenario."""
+    import reactivex
+    from reactivex.disposable import Disposable
+    op, par, src, term, dsp = scn["op"], scn["par"], scn["src"], scn["term"], scn["dsp"]
+    cod = oc.Codec(op, par, profile, k, salt)
+    if cod.vals is None:
+        return None
+    n = len(src) + (0 if term == "U" else 1)
+    T = [200 + j for j in range(n + 3)]
+    now = [200]
+    held: List[Any] = []
+    unsub = [NEVER_T]
+
+    def subscribe(observer, scheduler=None):
+        held.append(observer)
+
+        def dispose():
+            if unsub[0] == NEVER_T:
+                unsub[0] = now[0]
+        return Disposable(dispose)
+    xs = reactivex.create(subscribe)
+    marks: List[Tuple[Any, str]] = []
+    ys = apply_op(xs, scn, cod, "pipe", marks, lambda: now[0])
+    rec: List[Tuple[float, str, Any]] = []
+    escaped: List[BaseException] = []
+    depth = [0]
+
+    def poke():
+        if depth[0] > 0 or not held:
+            return
+        depth[0] += 1
+        try:
+            for kind in reenter:
+                for o in list(held):
+                    if kind == "N":
+                        o.on_next(cod.vals[0])
+                    elif kind == "C":
+                        o.on_completed()
+                    else:
+                        o.on_error(SinkErr("re-entrant"))
+        finally:
+            depth[0] -= 1
+
+    def on_error(e):
+        rec.append((now[0], "E", e))
+        poke()
+
+    def on_completed():
+        rec.append((now[0], "C", None))
+        poke()
+    ys.subscribe(on_next=lambda v: rec.append((now[0], "N", v)), on_error=on_error, on_completed=on_completed)
+    for j in range(1, n + 1):
+        now[0] = T[j]
+        try:
+            for o in list(held):
+                if j <= len(src):
+                    o.on_next(cod.vals[src[j - 1]])
+                elif term == "C":
+                    o.on_completed()
+                else:
+                    o.on_error(cod.src_err)
+        except Exception as e:
+            escaped.append(e)
+    return {"rec": rec, "recs": [rec], "subs": [(200, unsub[0])] if held else [], "T": T, "cod": cod,
+            "escaped": escaped[0] if escaped else None, "all_escaped": escaped, "dtime": None, "marks": marks, "second_at": None}
+
+
+def judge_reenter(scn, allowed, *, profile: str, k: int, reenter, salt: int = 0):
+    """C01: a subscriber whose terminal callback synchronously makes a still-alive (non-conforming) upstream emit again
+    must not be called again - the observation is exactly the conforming one."""
+    got = run_raw(scn, profile=profile, k=k, salt=salt, reenter=tuple(reenter))
+    if got is None:
+        return "n/a"
+    var = dict(profile=profile, salt=salt, k=k, form="pipe", mode="reenter", reenter=list(reenter))
+    g = grammar_ok(got["rec"])
+    if g:
+        return _base_record(scn, allowed, got, "grammar:" + g, failure="grammar", **var)
+    r = _match_any(scn, allowed, dict(got, escaped=None))
+    if r is not None:
+        return _base_record(scn, allowed, got, r, failure="mismatch", **var)
+    return None
+
+
 # ---- judges -----------------------------------------------------------------------------------------------------
 def _base_record(scn, allowed, got, reason, **kw):
     rec = {"engine": "ops1", "op": scn["op"], "scn": scn, "expected": allowed, "observed": oc.describe(got), "reason": reason,
@@ -357,7 +444,7 @@ def judge_sink_raise(scn, allowed, *, hot: bool, tmap: str, profile: str, k: int
     return None
 
 
-MODES = {"fault": judge_fault, "dispose": judge_dispose, "resub": judge_resub, "forms": judge_forms, "junk": judge_junk,
+MODES = {"reenter": judge_reenter, "fault": judge_fault, "dispose": judge_dispose, "resub": judge_resub, "forms": judge_forms, "junk": judge_junk,
          "sink_raise": judge_sink_raise}
 
 
@@ -394,7 +481,7 @@ def generic_replay(rec):
     if mode is None:
         return oc.generic_replay(rec)
     kw = {}
-    for key in ("driver", "tmap", "profile", "k", "salt", "pattern", "hot", "junk", "which"):
+    for key in ("driver", "tmap", "profile", "k", "salt", "pattern", "hot", "junk", "which", "reenter"):
         if key in rec and key in MODES[mode].__code__.co_varnames[:MODES[mode].__code__.co_argcount + MODES[mode].__code__.co_kwonlyargcount]:
             kw[key] = rec[key]
     f = MODES[mode](rec["scn"], rec["expected"], **kw)
